@@ -160,6 +160,14 @@ def physical_name_rule(ctx, rid, only_harvester=False):
 def _policy_table(ctx, rr, rid, f, old_names, new_names, valuation_key="overwrite", only=None, _depth=0):
     g = build_cfg(f.node)
     ctx.touch(f, g)
+    # local aliases of the old / new datasets (`old_ds = self._full_ds`), single definitions only
+    old_names, new_names = set(old_names), set(new_names)
+    for st_ in walk_shallow(f.node):
+        if isinstance(st_, ast.Assign) and len(st_.targets) == 1 and isinstance(st_.targets[0], ast.Name) and single_def(f, st_.targets[0].id) is not None:
+            if norm(st_.value) in old_names:
+                old_names.add(st_.targets[0].id)
+            elif norm(st_.value) in new_names:
+                new_names.add(st_.targets[0].id)
     for val, label in ((TRUE, "True"), (FALSE, "False"), (NONE, "None")):
         if only is not None and label != only:
             continue
@@ -192,6 +200,10 @@ def _policy_table(ctx, rr, rid, f, old_names, new_names, valuation_key="overwrit
                     inv = {norm(a): p_ for p_, a in b.items()}
                     o2 = {inv[x] for x in old_names if x in inv}
                     n2 = {inv[x] for x in new_names if x in inv}
+                    if cf.cls is not None and cf.cls is f.cls and isinstance(c.func, ast.Attribute) and norm(c.func.value) == "self":
+                        # a method of the same object sees the object's own attributes under the same name
+                        o2 |= {x for x in old_names if x.startswith("self.")}
+                        n2 |= {x for x in new_names if x.startswith("self.")}
                     pol = [p_ for p_, a in b.items() if norm(a) == valuation_key]
                     if o2 and n2 and pol:
                         _policy_table(ctx, rr, rid, cf, o2, n2, pol[0], only=label, _depth=_depth + 1)
@@ -306,6 +318,21 @@ def sync_order_rule(ctx, rid, cls="Harvester"):
             return val_ is not None and any(_merge_call(c) for c in ast.walk(val_))
         merges = [n for n in g.nodes if n.id in fl.visited and _is_merge(n)]
         stores = [n for n in g.nodes if n.id in fl.visited and n.kind == "stmt" and isinstance(n.ast, ast.Assign) and any(path_key(t) == "self." + attr for t in n.ast.targets) and not _is_merge(n)]
+
+        def _in_helper(target):
+            """a helper method of the class (other than the loader / saver themselves) that calls `target`"""
+            for n_, c_, nm_ in all_calls(ctx, f, g):
+                if n_.id in fl.visited and isinstance(c_.func, ast.Attribute) and norm(c_.func.value) == "self" and f.cls is not None and c_.func.attr not in (lname, sname):
+                    hm_ = f.cls.find_method(c_.func.attr)
+                    if hm_ is not None and hasattr(hm_, "node") and any(nm2 == "%s.%s.%s" % (FARM, cls, target) for _, _, nm2 in all_calls(ctx, hm_)):
+                        return hm_
+            return None
+        if not merges:
+            raise AnalysisError("idiom changed: no statement of %s recognised as the merge of old and new data" % mname)
+        if not loads and _in_helper(lname) is not None:
+            raise AnalysisError("idiom changed: %s reloads through the helper `%s`" % (mname, _in_helper(lname).name))
+        if not saves and _in_helper(sname) is not None:
+            raise AnalysisError("idiom changed: %s saves through the helper `%s`; whether the helper saves on every path with sync is not analysed" % (mname, _in_helper(sname).name))
         if not loads or not all(g.completes_before(loads[0][0].id, m.id, feasible=fl.feasible) for m in merges) or not merges:
             rr.bad(ctx.finding(rid, f, f.node, "with sync and %s, %s does not (re)load the on-disk data before merging: data written by another %s object / session on the same file is silently dropped at the next save" % (tag, mname, cls),
                                construct="no-reload " + ("mem" if mem == NOTNONE else "nomem")), "%s reload [%s]" % (mname, tag))
